@@ -117,6 +117,9 @@ func plainLinesOfRaw(raw []byte) []string {
 
 func commentText(r *RNG, enc string) []byte {
 	n := r.Range(0, 14)
+	if r.Chance(1, 150) {
+		n = 30000 // a comment longer than common buffer sizes (64 KiB in bytes)
+	}
 	var b []byte
 	// bias: sometimes end the comment with a 0x5c / 0x7c trail character or half-width kana
 	for i := 0; i < n; i++ {
@@ -132,6 +135,9 @@ func commentText(r *RNG, enc string) []byte {
 			for c.Cls != "t5c" && c.Cls != "t7c" && c.Cls != "half" {
 				c = commentChars[r.Intn(len(commentChars))]
 			}
+		}
+		if enc == "sjis" && c.S == nil {
+			continue
 		}
 		if c.U == "\t" || enc == "ascii" && c.Cls != "ascii" {
 			if enc == "ascii" {
@@ -328,10 +334,14 @@ func (s *Scenario) buildWorld(W string, src []byte, image []byte) (*worldPaths, 
 	case "same_as_dst":
 		srcAbs = filepath.Join(W, "out", dstName)
 		must(os.WriteFile(srcAbs, src, 0644))
+	case "emptyarg":
 	default:
 		panic(modelErr("unknown src kind " + s.SrcKind))
 	}
 	wp.SrcAbs, wp.SrcArg = srcAbs, srcAbs
+	if s.SrcKind == "emptyarg" {
+		wp.SrcArg = ""
+	}
 	// --- destination ---
 	dstAbs := filepath.Join(W, "out", dstName)
 	dstArg := dstAbs
@@ -386,6 +396,8 @@ func (s *Scenario) buildWorld(W string, src []byte, image []byte) (*worldPaths, 
 	case "longname":
 		dstAbs = filepath.Join(W, "out", strings.Repeat("d", 300))
 		dstArg = dstAbs
+	case "emptyarg":
+		dstAbs, dstArg = filepath.Join(W, "out", "never-created"), ""
 	default:
 		panic(modelErr("unknown dst kind " + s.DstKind))
 	}
@@ -456,7 +468,7 @@ type expectation struct {
 
 func (s *Scenario) srcReadable() bool {
 	switch s.SrcKind {
-	case "missing", "dir", "dangling", "loop", "longname":
+	case "missing", "dir", "dangling", "loop", "longname", "emptyarg":
 		return false
 	case "mode000":
 		return s.Uid == 0
@@ -466,7 +478,7 @@ func (s *Scenario) srcReadable() bool {
 
 func (s *Scenario) dstCreatable() bool {
 	switch s.DstKind {
-	case "parent_missing", "parent_is_file", "is_dir", "longname":
+	case "parent_missing", "parent_is_file", "is_dir", "longname", "emptyarg":
 		return false
 	case "ro_file", "ro_dir":
 		return s.Uid == 0
@@ -474,10 +486,29 @@ func (s *Scenario) dstCreatable() bool {
 	return true
 }
 
-func (s *Scenario) expect(imageClass string, nlines int) expectation {
+// faultMakesSrcUnreadable / faultMakesDstUncreatable: an injected error that actually fired on
+// the stat/open/read of the source, or on the first open of the destination, is exactly "the
+// source cannot be read" / "the output cannot be created" of the statement (EINTR excepted: the
+// Go runtime retries it, so nothing failed).
+func (s *Scenario) faultMakesSrcUnreadable(fired int) bool {
+	f := s.Fault
+	return f != nil && fired > 0 && f.Kind == "strace" && f.Target == "src" && f.Errno != "EINTR" && (f.Syscall == "newfstatat" || f.Syscall == "openat" || f.Syscall == "read")
+}
+
+func (s *Scenario) faultMakesDstUncreatable(fired int) bool {
+	f := s.Fault
+	return f != nil && fired > 0 && f.Kind == "strace" && f.Target == "dst" && f.Errno != "EINTR" && f.Syscall == "openat" && f.When == 1
+}
+
+func (s *Scenario) expect(imageClass string, nlines int, fired int) expectation {
 	e := expectation{NLines: nlines}
-	if s.Fault != nil {
+	srcFault, dstFault := s.faultMakesSrcUnreadable(fired), s.faultMakesDstUncreatable(fired)
+	if s.Fault != nil && !srcFault && !dstFault {
 		e.Why = "fault plan active: only G1/G2"
+		return e
+	}
+	if s.SrcKind == "same_as_dst" && (srcFault || dstFault) {
+		e.Why = "fault on a path that is both source and destination: only G1/G2"
 		return e
 	}
 	switch s.Shape {
@@ -499,7 +530,7 @@ func (s *Scenario) expect(imageClass string, nlines int) expectation {
 		return e
 	}
 	var clauses []string
-	if !s.srcReadable() {
+	if !s.srcReadable() || srcFault {
 		clauses = append(clauses, "17")
 	} else if imageClass == "parse_error" {
 		clauses = append(clauses, "nonzero+pos")
@@ -507,7 +538,7 @@ func (s *Scenario) expect(imageClass string, nlines int) expectation {
 		e.Why = "program is not assembled normally by the in-process API (" + imageClass + "): only G1/G2"
 		return e
 	}
-	if !s.dstCreatable() {
+	if !s.dstCreatable() || dstFault {
 		clauses = append(clauses, "17")
 	}
 	switch {
@@ -779,7 +810,7 @@ func (c *c19Ctx) execute(s *Scenario, keepDir bool) (out *ScenarioOutcome, viol 
 	}
 	sort.Strings(out.WorldChanges)
 	nlines := bytes.Count(src, []byte("\n")) + 1
-	e := s.expect(imageClass, nlines)
+	e := s.expect(imageClass, nlines, out.FaultFired)
 	out.Expect = e.Pin + " (" + e.Why + ")"
 	if pr.Signal != "" {
 		// killed by a signal: the process chose no status; record, judge by G2 only
@@ -790,7 +821,7 @@ func (c *c19Ctx) execute(s *Scenario, keepDir bool) (out *ScenarioOutcome, viol 
 	if viol == nil && s.Fault != nil && s.SrcKind != "same_as_dst" { // (with src == dst the first run consumed its own source)
 		s2 := *s
 		s2.Fault = nil
-		e2 := s2.expect(imageClass, nlines)
+		e2 := s2.expect(imageClass, nlines, 0)
 		if e2.Pin == "0" {
 			pr2, _, _ := run(nil)
 			hx := pr2.Exit
